@@ -74,6 +74,60 @@ def isPrefix : List String → List String → Bool
   | _, [] => false
   | a :: as, b :: bs => a == b && isPrefix as bs
 
+/-- Judge a drained-reader observation `end calls=… | rows=… | altered=…[ | extra]` against the rows
+the reader must deliver. -/
+def judge (kind : String) (failing ordered : Bool) (want : List String) (obs : String) : String × Bool :=
+  match obs.splitOn " | " with
+  | callsPart :: rowsPart :: alteredPart :: more =>
+    let ended := callsPart.startsWith "end "
+    let calls := (words ((callsPart.splitOn "calls=").getD 1 "")).map fun t => splitOn1 t ':'
+    let got := ((rowsPart.drop 5).toString.splitOn ";").filter (· ≠ "")
+    let check : Except String Unit := do
+      if !ended then throw "reader did not reach end-of-stream (reads keep returning without progress)"
+      let mut seenEnd := false
+      for cl in calls do
+        match cl with
+        | [k, n, e, d] =>
+          if toNat! n > toNat! k then throw s!"returned {n} rows for a destination of {k}"
+          -- a call that fails with an error promises nothing about the destination
+          if d != "0" && kind != "readerfunc" && (e == "-" || e == "eof") then throw s!"rows beyond the returned count were written (k={k}, n={n})"
+          if seenEnd then
+            if n != "0" then throw "rows delivered after end-of-stream"
+            if e == "-" then throw "end-of-stream is not sticky: a later read reported more data"
+          if e == "eof" then seenEnd := true
+        | _ => throw "unparsable-call"
+      if alteredPart != "altered=0" then throw "rows delivered by an earlier call were altered by a later call"
+      let final := (calls.find? fun cl => cl.getD 2 "-" != "-").map (·.getD 2 "-")
+      if failing then
+        if final == some "eof" || final == none then throw "an input read error was swallowed as end-of-stream"
+        if ordered && !(isPrefix got want) then throw "rows delivered before the error are not a prefix of the expected rows"
+      else
+        if final != some "eof" && kind != "scanner" then throw s!"stream ended with {final} instead of end-of-stream"
+        if ordered then
+          if got != want then throw "delivered rows differ from the operator's meaning on the whole input"
+        else
+          if sortStrs got != sortStrs want then throw "delivered rows differ (as a multiset) from the operator's meaning"
+      if kind == "writer" && !failing then
+        match more with
+        | [w] =>
+          let entries := words (w.drop 7).toString
+          let rowsSeen := entries.flatMap fun e =>
+            (((e.splitOn "(").getD 1 "").dropEnd 1).toString.splitOn ";" |>.filter (· ≠ "")
+          if rowsSeen != want then throw "WriterFunc did not observe every row exactly once, in order"
+          let eofs := entries.filter (·.startsWith "eof")
+          if eofs.length != 1 || !((entries.getLast?.getD "").startsWith "eof") then
+            throw "WriterFunc did not observe exactly one end-of-stream, at the end"
+        | _ => throw "missing writer log"
+      if kind == "scanner" then
+        match more with
+        | [w] => if w != "arity=false,true type=false,true" then throw s!"scanner accepted a wrong destination: {w}"
+        | _ => throw "missing scanner checks"
+      pure ()
+    match check with
+    | .ok _ => ("ok", true)
+    | .error e => (e, false)
+  | _ => ("unparsable-observation", false)
+
 def run (c obs : String) : String × String × Bool :=
   match splitOn1 c ';' with
   | [] => ("bad-case", "bad-case", false)
@@ -84,58 +138,7 @@ def run (c obs : String) : String × String × Bool :=
     let failing := (obs.splitOn " | injected=").getD 1 "0" != "0"
     let obs := (obs.splitOn " | injected=").getD 0 ""
     let model := "rows=" ++ joinWith ";" want
-    match obs.splitOn " | " with
-    | callsPart :: rowsPart :: alteredPart :: more =>
-      let ended := callsPart.startsWith "end "
-      let calls := (words ((callsPart.splitOn "calls=").getD 1 "")).map fun t => splitOn1 t ':'
-      let got := ((rowsPart.drop 5).toString.splitOn ";").filter (· ≠ "")
-      let kind := head.headD ""
-      let check : Except String Unit := do
-        if !ended then throw "reader did not reach end-of-stream (reads keep returning without progress)"
-        let mut seenEnd := false
-        for cl in calls do
-          match cl with
-          | [k, n, e, d] =>
-            if toNat! n > toNat! k then throw s!"returned {n} rows for a destination of {k}"
-            -- a call that fails with an error promises nothing about the destination
-            if d != "0" && kind != "readerfunc" && (e == "-" || e == "eof") then throw s!"rows beyond the returned count were written (k={k}, n={n})"
-            if seenEnd then
-              if n != "0" then throw "rows delivered after end-of-stream"
-              if e == "-" then throw "end-of-stream is not sticky: a later read reported more data"
-            if e == "eof" then seenEnd := true
-          | _ => throw "unparsable-call"
-        if alteredPart != "altered=0" then throw "rows delivered by an earlier call were altered by a later call"
-        let final := (calls.find? fun cl => cl.getD 2 "-" != "-").map (·.getD 2 "-")
-        if failing then
-          -- an input failed: the error must surface (never end-of-stream), and what was delivered is correct
-          if final == some "eof" || final == none then throw "an input read error was swallowed as end-of-stream"
-          if ordered && !(isPrefix got want) then throw "rows delivered before the error are not a prefix of the expected rows"
-        else
-          if final != some "eof" && kind != "scanner" then throw s!"stream ended with {final} instead of end-of-stream"
-          if ordered then
-            if got != want then throw "delivered rows differ from the operator's meaning on the whole input"
-          else
-            if sortStrs got != sortStrs want then throw "delivered rows differ (as a multiset) from the operator's meaning"
-        -- kind-specific extras
-        if kind == "writer" && !failing then
-          match more with
-          | [w] =>
-            let entries := words (w.drop 7).toString
-            let rowsSeen := entries.flatMap fun e =>
-              (((e.splitOn "(").getD 1 "").dropEnd 1).toString.splitOn ";" |>.filter (· ≠ "")
-            if rowsSeen != want then throw "WriterFunc did not observe every row exactly once, in order"
-            let eofs := entries.filter (·.startsWith "eof")
-            if eofs.length != 1 || !((entries.getLast?.getD "").startsWith "eof") then
-              throw "WriterFunc did not observe exactly one end-of-stream, at the end"
-          | _ => throw "missing writer log"
-        if kind == "scanner" then
-          match more with
-          | [w] => if w != "arity=false,true type=false,true" then throw s!"scanner accepted a wrong destination: {w}"
-          | _ => throw "missing scanner checks"
-        pure ()
-      match check with
-      | .ok _ => (model, "ok", true)
-      | .error e => (model, e, false)
-    | _ => (model, "unparsable-observation", false)
+    let (o, s) := judge (head.headD "") failing ordered want obs
+    (model, o, s)
 
 end Driver.C17
